@@ -47,16 +47,14 @@ def _default_named_schemas() -> Dict[str, NamedSchemas]:
     return {"writer": {}, "reader": {}}
 
 
-def match_types(writer_type, reader_type, named_schemas, level=2):
-    """level 0: the same type (a named type: the same full name); level 1: named
-    types also by unqualified name or reader alias; level 2: promotions, too"""
-    if isinstance(writer_type, list) or isinstance(reader_type, list):
-        return True
-    if isinstance(writer_type, dict) or isinstance(reader_type, dict):
-        try:
-            return match_schemas(writer_type, reader_type, named_schemas, level)
-        except SchemaResolutionError:
-            return False
+def _deref(schema, named_schemas, side):
+    """a by-name reference stands for the definition it names"""
+    if named_schemas and isinstance(schema, str):
+        return named_schemas[side].get(schema, schema)
+    return schema
+
+
+def _match_type_names(writer_type, reader_type, level):
     if writer_type == reader_type:
         return True
     elif level < 2:
@@ -72,11 +70,23 @@ def match_types(writer_type, reader_type, named_schemas, level=2):
         return True
     elif writer_type == "bytes" and reader_type == "string":
         return True
-    writer_schema = named_schemas["writer"].get(writer_type)
-    reader_schema = named_schemas["reader"].get(reader_type)
-    if writer_schema is not None and reader_schema is not None:
-        return match_types(writer_schema, reader_schema, named_schemas, level)
     return False
+
+
+def match_types(writer_type, reader_type, named_schemas, level=2):
+    """level 0: the same type (a named type: the same full name); level 1: named
+    types also by unqualified name or reader alias; level 2: promotions, too"""
+    writer_type = _deref(writer_type, named_schemas, "writer")
+    reader_type = _deref(reader_type, named_schemas, "reader")
+    if isinstance(writer_type, list) or isinstance(reader_type, list):
+        return True
+    if isinstance(writer_type, dict) or isinstance(reader_type, dict):
+        try:
+            match_schemas(writer_type, reader_type, named_schemas, level)
+            return True
+        except SchemaResolutionError:
+            return False
+    return _match_type_names(writer_type, reader_type, level)
 
 
 def _reader_branch(w_schema, r_union, named_schemas):
@@ -90,11 +100,15 @@ def _reader_branch(w_schema, r_union, named_schemas):
 
 
 def match_schemas(w_schema, r_schema, named_schemas, level=2):
+    """Returns the reader schema to continue with (a by-name reference as given)"""
     error_msg = f"Schema mismatch: {w_schema} is not {r_schema}"
+    given_r_schema = r_schema
+    w_schema = _deref(w_schema, named_schemas, "writer")
+    r_schema = _deref(r_schema, named_schemas, "reader")
     if isinstance(w_schema, list):
         # If the writer is a union, checks will happen in read_union after the
         # correct schema is known
-        return r_schema
+        return given_r_schema
     elif isinstance(r_schema, list):
         # If the reader is a union, ensure one of the new schemas is the same
         # as the writer
@@ -115,11 +129,16 @@ def match_schemas(w_schema, r_schema, named_schemas, level=2):
 
         if w_type == r_type == "map":
             if match_types(w_schema["values"], r_schema["values"], named_schemas):
-                return r_schema
+                return given_r_schema
         elif w_type == r_type == "array":
             if match_types(w_schema["items"], r_schema["items"], named_schemas):
-                return r_schema
-        elif w_type in NAMED_TYPES and r_type in NAMED_TYPES:
+                return given_r_schema
+        elif (
+            isinstance(w_schema, dict)
+            and isinstance(r_schema, dict)
+            and w_type in NAMED_TYPES
+            and r_type in NAMED_TYPES
+        ):
             if w_type == r_type == "fixed" and w_schema["size"] != r_schema["size"]:
                 raise SchemaResolutionError(
                     f"Schema mismatch: {w_schema} size is different than {r_schema} size"
@@ -138,12 +157,9 @@ def match_schemas(w_schema, r_schema, named_schemas, level=2):
                     or w_unqual_name in r_aliases
                 )
             ):
-                return r_schema
-        elif w_type not in AVRO_TYPES and r_type in NAMED_TYPES:
-            if match_types(w_type, r_schema["name"], named_schemas, level):
-                return r_schema["name"]
-        elif match_types(w_type, r_type, named_schemas, level):
-            return r_schema
+                return given_r_schema
+        elif _match_type_names(w_type, r_type, level):
+            return given_r_schema
         raise SchemaResolutionError(error_msg)
 
 
@@ -690,6 +706,8 @@ def read_data(
             reader_schema,
             named_schemas,
         )
+        # the reader functions want the definition, not its name
+        reader_schema = _deref(reader_schema, named_schemas, "reader")
 
     reader_fn = READERS.get(record_type)
     if reader_fn:
@@ -719,7 +737,7 @@ def read_data(
             decoder,
             named_schemas["writer"][record_type],
             named_schemas,
-            named_schemas["reader"].get(reader_schema),
+            reader_schema,
             options,
         )
 
